@@ -269,6 +269,20 @@ def sibling(ctx):
         e.arg(0), 'if') for e in F.calls_to(wr, 'dump', depth=1))
     ctx.ob(R, 'CompDB.write|dumps-all', ok, wr.node,
            'not every entry is written')
+    # compdb path text comes out of the same realisation as in make/ninja
+    # (BasePath.string / relpath of it), never out of the raw suffix (the
+    # build directory itself has an empty suffix and must read ".")
+    sf = F.fn(CD + 'CompDB._stringify')
+    raw = []
+    for r in F.flow._returns(sf):
+        at = F.atoms(r, sf)
+        if any(a.endswith('.suffix') and not a.startswith('via:')
+               for a in at):
+            raw.append(unparse(r))
+    ctx.ob(R, 'CompDB._stringify|paths-realised', not raw, sf.node,
+           'a path is written into compile_commands.json from its raw '
+           'suffix ({}), not through string(): "-I" + "" for the build '
+           'directory itself'.format('; '.join(raw)[:80]))
     w = F.fn(CD + 'write')
     hc = [e for e in F.effects(w, lambda e: True, depth=0)
           if has(e.heads(), '_rule_handlers')]
@@ -309,3 +323,6 @@ def check(ctx):
     # the two helpers that stand between a handler and the statement it
     # registers must forward the same arguments (shared with C03)
     c03.pass_through(ctx)
+    # header dependencies: both backends read the compiler's depfile back
+    # for every object (shared with C07)
+    c07.depfile_wiring(ctx)
